@@ -1,6 +1,7 @@
 package bech32
 
 import (
+	"strings"
 	"errors"
 	"fmt"
 	"hash/fnv"
@@ -30,14 +31,17 @@ func vRun(op string, in M) M {
 			p2 := vCatch(func() { r, e2 = Encode(hrp, data) })
 			out["reenc_ok"] = e2 == nil && p2 == ""
 			out["reenc"] = vInts([]byte(r))
+			vKeepStr("bech32.Encode result", r)
 		}
+		vOwnOrKeep("bech32.Decode data", data) // the caller owns the returned bytes: it overwrites them, or keeps them
 		return out
 	case "bech32.Encode":
 		hrp := string(vBytes(in["hrp"]))
-		data := vBytes(in["data"])
+		data := vBuf("bech32.Encode src", in["data"]) // the caller's buffer: reused for the next call with other content
 		var s string
 		var err error
 		p := vCatch(func() { s, err = Encode(hrp, data) })
+		vKeepStr("bech32.Encode result", s)
 		out := M{"ok": err == nil && p == "", "str": vInts([]byte(s)), "panic": p,
 			"dec_ok": false, "dec_hrp": []int{}, "dec_data": []int{}}
 		if err == nil && p == "" {
@@ -48,6 +52,7 @@ func vRun(op string, in M) M {
 			out["dec_ok"] = e2 == nil && p2 == ""
 			out["dec_hrp"] = vInts([]byte(h2))
 			out["dec_data"] = vInts(d2)
+			vOwnOrKeep("bech32.Decode data", d2)
 		}
 		return out
 	}
@@ -66,6 +71,7 @@ func runParBatch(rec *vRec, ins []M) {
 	budget := time.Duration(vEnvInt("VERIF_PAR_MS", 1500)) * time.Millisecond
 	start := make(chan struct{})
 	t0 := time.Now()
+	vConc = true
 	for g := 0; g < 8; g++ {
 		wg.Add(1)
 		go func(g int) {
@@ -75,8 +81,8 @@ func runParBatch(rec *vRec, ins []M) {
 			// disturb each other is a few instructions wide
 			for rep := 0; rep < 12 || time.Since(t0) < budget; rep++ {
 				for i := g; i < len(ins); i += 8 {
-					o := vRun("bech32.Decode", ins[i])
-					k := fmt.Sprint(o["ok"], o["hrp"], o["data"], o["panic"])
+					o := vRun(parOp(ins[i]), ins[i])
+					k := fmt.Sprint(o)
 					if keys[i] == nil {
 						keys[i] = map[string]bool{}
 					}
@@ -90,12 +96,42 @@ func runParBatch(rec *vRec, ins []M) {
 	}
 	close(start)
 	wg.Wait()
+	vConc = false
 	// every distinct answer is judged by the specification: a call that was disturbed by another one is rejected
 	for i := range ins {
 		for _, o := range outs[i] {
-			rec.emit("bech32.Decode", ins[i], o)
+			rec.emit(parOp(ins[i]), ins[i], o)
 		}
 	}
+}
+
+// the operation of a concurrent-batch input is told by its shape (Encode inputs carry an hrp)
+func parOp(in M) string {
+	if _, ok := in["hrp"]; ok {
+		return "bech32.Encode"
+	}
+	return "bech32.Decode"
+}
+
+// sameHrpBatch: Encode and Decode inputs that all share ONE human-readable part and one length (valid strings and
+// their corrupted neighbours): calls that could share per-prefix state are made to collide
+func sameHrpBatch(r rnd) []M {
+	hrp := randHrp(r, 2+r.Intn(5))
+	var ins []M
+	for k := 0; k < 48; k++ {
+		data := make([]byte, 20)
+		r.Read(data)
+		ins = append(ins, vNorm(M{"hrp": vInts([]byte(hrp)), "data": vInts(data), "par": true}))
+		if s, err := Encode(hrp, data); err == nil {
+			b := []byte(s)
+			ins = append(ins, vNorm(M{"s": vInts(b), "par": true}))
+			c := append([]byte{}, b...)
+			pos := len(hrp) + 1 + r.Intn(len(c)-len(hrp)-1)
+			c[pos] = csAlphabet[(strings.IndexByte(csAlphabet, c[pos]|0x20)+1+r.Intn(31))%32]
+			ins = append(ins, vNorm(M{"s": vInts(c), "par": true}))
+		}
+	}
+	return ins
 }
 
 const csAlphabet = "qpzry9x8gf2tvdw0s3jn54khce6mua7l"
@@ -434,7 +470,13 @@ func TestVerifDriver(t *testing.T) {
 		runParBatch(rec, ins)
 		return
 	}
-	vMain(vRun, func(do func(string, M)) {
+	rec := vOpen()
+	defer rec.close()
+	defer func() { // after the sequential part: a concurrent batch on one human-readable part
+		rec.newTrace()
+		runParBatch(rec, sameHrpBatch(vRand(44)))
+	}()
+	func(do func(string, M)) {
 		r := vRand(4)
 		n := vEnvInt("VERIF_N", 300)
 		dec := func(s string) { do("bech32.Decode", M{"s": vInts([]byte(s))}) }
@@ -553,6 +595,14 @@ func TestVerifDriver(t *testing.T) {
 				h = string(hb)
 			}
 			do("bech32.Encode", M{"hrp": vInts([]byte(h)), "data": vInts(data)})
+			if k%16 == 3 { // code points beyond ASCII whose low byte is a printable ASCII value
+				for _, c := range []rune{0x0141, 0x0131, 0x4E2D, 0x0100 + rune('a'+r.Intn(26)), 0x10000 + rune('0'+r.Intn(10))} {
+					do("bech32.Encode", M{"hrp": vInts([]byte("a" + string(c) + "b")), "data": vInts(data)})
+				}
+			}
 		}
+	}(func(op string, in M) {
+		in = vNorm(in)
+		rec.emit(op, in, vRun(op, in))
 	})
 }
